@@ -51,6 +51,24 @@ theorem exScreen_namesOK : NamesOK exScreen where
   tm := by decide
   sm := by decide
 
+/-- the rows of `exRaw` with HAND-MADE mappings: the same names, ids relabelled by a permutation and the table rows
+    shuffled (not sorted by name, ids not in table order) -/
+def handMadeRaw : Raw :=
+  { exRaw with
+    tmap := some [([128512], 3, 0), ([98], 1, 3), ([], 0, -1), ([233], 1, 1), ([97], 2, 2)],
+    smap := some [([122,122], 0), ([115,49], 2), ([115], 1)] }
+
+def handMadeScreen : Screen :=
+  { exScreen with
+    tids := [[1, 2], [2, -1], [0, 1]],
+    sids := [1, 2, 1],
+    tmap := [([128512], 3, 0), ([98], 1, 3), ([], 0, -1), ([233], 1, 1), ([97], 2, 2)],
+    smap := [([122,122], 0), ([115,49], 2), ([115], 1)] }
+
+theorem handMadeScreen_mk : mk? handMadeRaw = .ok handMadeScreen := by rw [mk?_eqK]; decide
+
+theorem handMadeScreen_valid : Valid handMadeScreen := ⟨handMadeRaw, handMadeScreen_mk⟩
+
 /-- the zero-row screen both hold-out functions return for fraction 0 (with the parent's mappings) -/
 def zeroRowRaw : Raw :=
   { ctrl := [], arity := 2, tnames := [], tdoses := [], snames := [], pnames := [], obs := some [], mask := some [],
